@@ -14,6 +14,8 @@ CONSTANTS
   NaNTest = "value"
   StrideOff = 0
   ReorderMode = "byweight"
+  ZeroGuard = "guarded"
+  Gens = {1,2,3}
   Ordered = FALSE
   Export = FALSE
 INVARIANT TraceInSampleOrder
